@@ -23,7 +23,7 @@ McNoUnspec == McAll \ {Unspec}
 TcNoUnspec == TcAll \ {Unspec}
 CpNoUnspec == CpAll \ {Unspec}
 
-QuirksOff == [lin_to_yuv_raw_cfg |-> FALSE, rgb_to_yuv_panics_on_odd |-> FALSE]
+QuirksOff == [lin_to_yuv_raw_cfg |-> FALSE, rgb_to_yuv_panics_on_odd |-> FALSE, lin_to_rgb_primaries_first |-> FALSE]
 
 \* RGB->YUV only needs one RGB label per target config (the matrix stage ignores them), and the float
 \* kinds need no second constructor variant
